@@ -73,7 +73,8 @@ def run(ctx):
                 seeds.append(el.args[2])
     ctx.add("C11.R1", root + "#initial-seeds-are-prg-outputs", len(seeds) == 2 and all(s.op == "owf" for s in seeds),
             "the two initial tree nodes must hold PRG outputs; found %s" % [S(s, 2) for s in seeds], at)
-    ctx.floor("C11.R1", 2)
+    c10.initial_nodes(ctx, "C11.R1")
+    ctx.floor("C11.R1", 4)
 
     # ---- R2 covering node removed ----------------------------------------------------------------------------
     covering_removed(ctx, "C11.R2")
